@@ -137,3 +137,7 @@ impl<F> FromIterator<F> for PinSlotMap<F> {
         }
     }
 }
+
+#[cfg(futures_buffered_verif)]
+#[path = "/verif/hooks/slot_map.rs"]
+mod verif_hooks;
